@@ -169,7 +169,15 @@ theorem corePF_erase (env : Env) (args : List Val) (ws : WS) : ∀ p : PF, coreP
     function is not one the console logger calls itself (else finding F14) -/
 structure Total (env : Env) : Prop where
   fmt : ∀ v, (env.render v).isSome = true
+  /-- fmt runs no user method that records anything (else finding F27) -/
+  pure : ∀ v, env.renderEvents v = []
   indep : env.loggerCalls = false
+
+theorem userEvents_nil (env : Env) (tot : Total env) : ∀ vs : List Val, userEvents env vs = []
+  | [] => rfl
+  | v :: r => by
+    simp only [userEvents, tot.pure v, userEvents_nil env tot r, List.append_nil]
+    split <;> rfl
 
 theorem afterCall_frame (env : Env) (tot : Total env) (args results : List Val) (s : St) :
     (afterCall env args results s).1 = .ret results ∧ (afterCall env args results s).2.ws = s.ws ∧
@@ -179,7 +187,7 @@ theorem afterCall_frame (env : Env) (tot : Total env) (args results : List Val) 
   unfold afterCall
   split
   · exact ⟨rfl, rfl, rfl, rfl⟩
-  · simp only [ha, hr, consolefc, tot.indep, Bool.false_and, Bool.false_eq_true, if_false]
+  · simp only [ha, hr, consolefc, tot.indep, Bool.false_and, Bool.false_eq_true, if_false, userEvents_nil env tot, List.append_nil]
     split <;> (repeat' constructor)
 
 theorem wrap_forward (env : Env) (args : List Val) (hacc : env.sig.accepts args = true) (g : List Val → Out × St) (s : St) :
@@ -276,8 +284,11 @@ theorem install_frame (env : Env) (s : St) (imp : Fn) (pf : Option PF) :
   cases env.kind <;> cases s.isDebugOpen <;> cases pf <;> simp [Inst.erase, Fn.erase, PF.erase]
 
 theorem applyReq_some (env : Env) (tot : Total env) (s : St) (imp : Fn) (pf : Option PF) :
-    applyReq env s (some (imp, pf)) = install env s imp pf := by
+    applyReq env s (some (imp, pf)) = install env (bumpTrace s) imp pf := by
   simp only [applyReq, tot.indep, Bool.false_and, Bool.false_eq_true, if_false]
+
+theorem bumpTrace_frame (s : St) : (bumpTrace s).ws = s.ws ∧ (bumpTrace s).inst = s.inst ∧ (bumpTrace s).dead = s.dead := by
+  unfold bumpTrace; split <;> exact ⟨rfl, rfl, rfl⟩
 
 theorem applyReq_sim (env : Env) (tot : Total env) (a b : St) (h : Sim a b) (req : Option (Fn × Option PF)) :
     Sim (applyReq env a req) (applyReq env b req) := by
@@ -285,10 +296,12 @@ theorem applyReq_sim (env : Env) (tot : Total env) (a b : St) (h : Sim a b) (req
   | none => exact h
   | some r =>
     obtain ⟨imp, pf⟩ := r
-    have fa := install_frame env a imp pf
-    have fb := install_frame env b imp pf
+    have fa := install_frame env (bumpTrace a) imp pf
+    have fb := install_frame env (bumpTrace b) imp pf
+    have ba := bumpTrace_frame a
+    have bb := bumpTrace_frame b
     rw [applyReq_some env tot, applyReq_some env tot]
-    exact ⟨by rw [fa.1, fb.1, h.ws], by rw [fa.2.2, fb.2.2], by rw [fa.2.1, fb.2.1, h.dead]⟩
+    exact ⟨by rw [fa.1, fb.1, ba.1, bb.1, h.ws], by rw [fa.2.2, fb.2.2], by rw [fa.2.1, fb.2.1, ba.2.2, bb.2.2, h.dead]⟩
 
 theorem Fn_erase_inj_core (env : Env) (args : List Val) (ws : WS) (f g : Fn) (h : f.erase = g.erase) :
     coreFn env f args ws = coreFn env g args ws := by
@@ -367,6 +380,7 @@ theorem step_sim (env : Env) (tot : Total env) (a b : St) (h : Sim a b) (op : Op
     rw [hs.dead]
   cases op with
   | apply cb => exact hcfg _ rfl rfl
+  | applyBad => exact hcfg _ rfl rfl
   | ret vals => exact hcfg _ rfl rfl
   | «when» pats vals => exact hcfg _ rfl rfl
   | rets seq => exact hcfg _ rfl rfl
@@ -407,12 +421,13 @@ theorem run_sim (env : Env) (tot : Total env) : ∀ (ops : List Op) (a b : St), 
 theorem applyReq_dead (env : Env) (tot : Total env) (s : St) (req : Option (Fn × Option PF)) : (applyReq env s req).dead = s.dead := by
   cases req with
   | none => rfl
-  | some r => obtain ⟨imp, pf⟩ := r; rw [applyReq_some env tot]; exact (install_frame env s imp pf).2.1
+  | some r => obtain ⟨imp, pf⟩ := r; rw [applyReq_some env tot]; exact ((install_frame env _ imp pf).2.1).trans (bumpTrace_frame s).2.2
 
 /-- with a total renderer no operation kills the process -/
 theorem step_dead (env : Env) (tot : Total env) (s : St) (op : Op) : (step env s op).1.dead = s.dead := by
   cases op with
   | apply cb => exact applyReq_dead env tot _ _
+  | applyBad => exact applyReq_dead env tot _ _
   | ret vals => exact applyReq_dead env tot _ _
   | «when» pats vals => exact applyReq_dead env tot _ _
   | rets seq => exact applyReq_dead env tot _ _
@@ -485,6 +500,7 @@ theorem run_erase (env : Env) (tot : Total env) : ∀ (ops : List Op) (a b : St)
           rw [hf, ih, hr]
           simp only [eraseToks, hop, if_true]
         | apply _ => simp [isDbg] at hop
+        | applyBad => simp [isDbg] at hop
         | ret _ => simp [isDbg] at hop
         | «when» _ _ => simp [isDbg] at hop
         | rets _ => simp [isDbg] at hop
